@@ -29,18 +29,18 @@ type Engine struct {
 	pkgByName map[string]*packages.Package // short name -> package (module packages only)
 	allPkgs   map[string]*types.Package    // path -> types package (all deps)
 
-	Contracts map[string]*FuncContract
-	Preds     map[string]*PredDef // "pkg.name"
-	Lemmas    []*LemmaDef
-	GhostFields map[string]GhostField // "pkg.Struct.name"
-	StoreHooks  map[string][]*StoreHook // "pkg.Struct.field"
-	hookPkg     map[*StoreHook]string
+	Contracts     map[string]*FuncContract
+	Preds         map[string]*PredDef // "pkg.name"
+	Lemmas        []*LemmaDef
+	GhostFields   map[string]GhostField   // "pkg.Struct.name"
+	StoreHooks    map[string][]*StoreHook // "pkg.Struct.field"
+	hookPkg       map[*StoreHook]string
 	ContractFiles []string
 	MirrorUsed    []string
 
 	funcByKey map[string]*ssa.Function
 
-	addrTaken map[string]bool // "structTypeString|field" whose scalar address escapes
+	addrTaken        map[string]bool // "structTypeString|field" whose scalar address escapes
 	immutableGlobals map[*ssa.Global]bool
 	errorGlobals     map[*ssa.Global]int // globals initialised by errors.New / fmt.Errorf in init: index
 	modsets          map[*ssa.Function]map[string]bool
@@ -102,6 +102,7 @@ func Load(repoDir string, patterns []string, overlay map[string][]byte) (*Engine
 			e.allPkgs[p.PkgPath] = p.Types
 		}
 		if inModulePath(p.PkgPath) {
+			moduleShortNames[p.Name] = true
 			if _, dup := e.pkgByName[p.Name]; dup {
 				e.pkgByName[p.PkgPath] = p // e.g. cmd/litefs (package main)
 			} else {
@@ -142,6 +143,21 @@ func (e *Engine) fnInModule(fn *ssa.Function) bool {
 	return false
 }
 
+// moduleShortNames holds the short names of the module's own packages. A package outside the module with the
+// same short name (net/http vs litefs/http) gets its import path without slashes as key prefix ("nethttp"),
+// so that keys such as http.Error / http.Server.Close stay unambiguous.
+var moduleShortNames = map[string]bool{}
+
+func keyPkgName(p *types.Package) string {
+	if p == nil {
+		return ""
+	}
+	if !inModulePath(p.Path()) && moduleShortNames[p.Name()] {
+		return strings.ReplaceAll(p.Path(), "/", "")
+	}
+	return p.Name()
+}
+
 // FuncKey gives the contract key of a function: pkg.Recv.Name / pkg.Name / parent$N.
 func FuncKey(fn *ssa.Function) string {
 	if fn == nil {
@@ -159,9 +175,9 @@ func FuncKey(fn *ssa.Function) string {
 	}
 	pkgName := ""
 	if fn.Pkg != nil {
-		pkgName = fn.Pkg.Pkg.Name()
+		pkgName = keyPkgName(fn.Pkg.Pkg)
 	} else if fn.Object() != nil && fn.Object().Pkg() != nil {
-		pkgName = fn.Object().Pkg().Name()
+		pkgName = keyPkgName(fn.Object().Pkg())
 	}
 	if recv := fn.Signature.Recv(); recv != nil {
 		t := recv.Type()
@@ -170,7 +186,7 @@ func FuncKey(fn *ssa.Function) string {
 		}
 		if n, ok := t.(*types.Named); ok {
 			if n.Obj().Pkg() != nil {
-				pkgName = n.Obj().Pkg().Name()
+				pkgName = keyPkgName(n.Obj().Pkg())
 			}
 			return pkgName + "." + n.Obj().Name() + "." + fn.Name()
 		}
@@ -217,7 +233,7 @@ func (e *Engine) ModuleFunctions() []*ssa.Function {
 // ---------------------------------------------------------------------------
 // Types
 
-func (e *Engine) qual(p *types.Package) string { return p.Name() }
+func (e *Engine) qual(p *types.Package) string { return keyPkgName(p) }
 
 var aliasRe = regexp.MustCompile(`\b(byte|rune)\b`)
 
